@@ -142,3 +142,25 @@ PROPS['C03'] = dict(
     kinds={'panic', 'unreported', 'false-report', 'repair-untruthful', 'resource-payload-digest'},
     rule='TODO', level_text='TODO', level_note='TODO',
 )
+
+PROPS['C06'] = dict(
+    id='C06', domains=['trunc', 'unm'], no_model={'trunc': True},
+    n=dict(quick=dict(trunc=120, unm=1500), thorough=dict(trunc=1500, unm=60000)),
+    theorems=[('Properties.C06', [])],
+    kinds={'panic', 'hang', 'wellformed-file-not-clean', 'complete-record-lost', 'partial-record-clean', 'truncation-invisible'},
+    rule='TODO', level_text='TODO', level_note='TODO',
+)
+PROPS['C07'] = dict(
+    id='C07', domains=['pol', 'unm', 'validate'], no_model={'pol': True},
+    n=dict(quick=dict(pol=2500, unm=1000, validate=300), thorough=dict(pol=100000, unm=40000, validate=20000)),
+    theorems=[('Properties.C07', [])],
+    kinds={'panic', 'block-shortened', 'short-stream-under-ignore', 'policy-changes-header', 'policy-changes-block', 'value-destroyed'},
+    rule='TODO', level_text='TODO', level_note='TODO',
+)
+PROPS['C08'] = dict(
+    id='C08', domains=['coh', 'hparse', 'validate', 'unm', 'build'], no_model={'coh': True},
+    n=dict(quick=dict(coh=1500, hparse=800, validate=300, unm=600, build=600), thorough=dict(coh=60000, hparse=30000, validate=20000, unm=20000, build=20000)),
+    theorems=[('Properties.C08', [])],
+    kinds={'panic', 'policy-incoherent'},
+    rule='TODO', level_text='TODO', level_note='TODO',
+)
